@@ -216,7 +216,8 @@ func checkC10(c *Ctx, r *Report) {
 			continue
 		}
 		// (b) classify exits
-		var terminalCell *ssa.FreeVar
+		var terminalCell Cell
+		haveTerminal := false
 		temporarySeen := false
 		complete := enumPaths(s.Fn, 1, 4096, func(p CPath) {
 			ds := pathDecisions(p)
@@ -275,9 +276,9 @@ func checkC10(c *Ctx, r *Report) {
 					// must record errv into a captured cell and return nil
 					stored := false
 					for _, in := range p.Instrs() {
-						if cell, v, ok := capturedCellStore(in); ok && (v == errv || p.Resolve(v) == errv) {
+						if cell, v, ok := cellStore(in); ok && (v == errv || p.Resolve(v) == errv) {
 							stored = true
-							terminalCell = cell
+							terminalCell, haveTerminal = cell, true
 						}
 					}
 					r.Check(stored && isNilConst(rv), fname+"|"+what+"-error path", ret.Pos(), "in-session "+what+" failure recorded as terminal error, retry loop ended", "in-session "+what+" failure must end the command (record the error, return nil to stop retrying); path "+sig)
@@ -336,31 +337,26 @@ func checkC10(c *Ctx, r *Report) {
 		}
 		if s.Session {
 			r.Rule("terminal-error-returned", "after backoff.Retry returns nil the in-session function returns the recorded terminal error", 1)
-			if terminalCell == nil {
-				r.Bad(c.FnName(s.Parent)+"|terminal cell", s.Parent.Pos(), "no captured terminal-error cell is written by the closure")
+			if !haveTerminal {
+				r.Bad(c.FnName(s.Parent)+"|terminal cell", s.Parent.Pos(), "no terminal-error cell shared with the enclosing function is written by the operation")
 			} else {
-				bind := freeVarBinding(terminalCell)
 				ok := false
 				// parent: on the Retry-nil arm the returned value is a load of the cell
 				for _, ret := range returnsOf(s.Parent) {
 					for _, v := range possibleValues(ret.Results[0]) {
-						if ld, isLd := v.(*ssa.UnOp); isLd && ld.Op == token.MUL && ld.X == bind && mustPrecede(s.Parent, s.Retry, ld) {
+						if ld, isLd := v.(*ssa.UnOp); isLd && ld.Op == token.MUL && terminalCell.addrIn(ld.X) && mustPrecede(s.Parent, s.Retry, ld) {
 							ok = true
 						}
 					}
 				}
-				// and the cell starts nil
-				// (a freshly allocated variable is nil; what matters is that the enclosing function
-				// stores nothing but nil into it)
-				initNil := false
-				if al, isAl := bind.(*ssa.Alloc); isAl {
-					initNil = true
-					for _, ref := range *al.Referrers() {
-						if st, isSt := ref.(*ssa.Store); isSt && st.Addr == ssa.Value(al) && !isNilConst(st.Val) {
-							initNil = false
-						}
+				// and the cell starts nil: a freshly allocated variable (or field of a fresh object) is
+				// nil; what matters is that the enclosing function stores nothing but nil into it
+				initNil := terminalCell.Obj.Parent() == s.Parent
+				rawInstrs(s.Parent, false, func(in ssa.Instruction) {
+					if st, isSt := in.(*ssa.Store); isSt && terminalCell.addrIn(st.Addr) && !isNilConst(st.Val) {
+						initNil = false
 					}
-				}
+				})
 				r.Check(ok && initNil, c.FnName(s.Parent)+"|return terminalErr", s.Retry.Pos(), "terminal error cell initialised nil and returned after Retry", "the terminal error recorded by the closure is not returned by the enclosing function (or the cell is not initialised to nil)")
 			}
 		}
@@ -405,15 +401,17 @@ func checkC10(c *Ctx, r *Report) {
 	for _, sc := range c.sendCommandImpls() {
 		name := c.FnName(sc)
 		r.Fn(name)
+		// the exchange: the call of the function that runs a sending operation under backoff.Retry
+		// (the operation may be a function literal or a method value)
+		starters := map[*ssa.Function]bool{}
+		for _, s := range scs {
+			starters[s.Parent] = true
+		}
 		var exch *ssa.Call
 		allInstrs(sc, false, func(in ssa.Instruction) {
 			if call, ok := in.(*ssa.Call); ok {
-				if f := call.Call.StaticCallee(); f != nil && sendCount(f) == 0 {
-					for _, a := range f.AnonFuncs {
-						if sendCount(a) > 0 {
-							exch = call
-						}
-					}
+				if f := call.Call.StaticCallee(); f != nil && starters[f] {
+					exch = call
 				}
 			}
 		})
